@@ -31,19 +31,39 @@ class Clock(object):
 
 
 def install_clock(clock):
-    """patch the names the cookie code looks the time up under (no repository hook)"""
+    """patch the names the cookie code looks the time up under (no repository hook).  If a refactor moved them the
+    clock is not under control: expiry outcomes are then not asserted (noted in evidence), nothing else changes."""
     import clastic.middleware.cookie as cmod
     import secure_cookie.cookie as scmod
-    saved = (cmod.time, scmod.time)
-    cmod.time = types.SimpleNamespace(time=lambda: clock.now)
-    scmod.time = lambda: clock.now
+    saved = {}
+    ok = True
+    if hasattr(cmod, 'time') and hasattr(cmod.time, 'time'):
+        saved['c'] = cmod.time
+        cmod.time = types.SimpleNamespace(time=lambda: clock.now)
+    elif callable(getattr(cmod, 'time', None)):
+        saved['c'] = cmod.time
+        cmod.time = lambda: clock.now
+    else:
+        ok = False
+    if callable(getattr(scmod, 'time', None)):
+        saved['s'] = scmod.time
+        scmod.time = lambda: clock.now
+    elif hasattr(scmod, 'time') and hasattr(scmod.time, 'time'):
+        saved['s'] = scmod.time
+        scmod.time = types.SimpleNamespace(time=lambda: clock.now)
+    else:
+        ok = False
+    saved['ok'] = ok
     return saved
 
 
 def restore_clock(saved):
     import clastic.middleware.cookie as cmod
     import secure_cookie.cookie as scmod
-    cmod.time, scmod.time = saved
+    if 'c' in saved:
+        cmod.time = saved['c']
+    if 's' in saved:
+        scmod.time = saved['s']
 
 
 def make_app(cfg):
@@ -158,6 +178,9 @@ class CookieSim(object):
         def live(e):
             if e['expires_at'] is None:
                 return [e['data']]
+            if not self.saved.get('ok'):
+                self.ctx.note('the cookie clock could not be put under harness control: expiry outcomes not asserted')
+                return [e['data'], {}]
             if now < e['expires_at'] - 1:
                 return [e['data']]
             if now > e['expires_at'] + 1:
